@@ -346,6 +346,9 @@ def run_case(case):
                 if rng.random() < .3:
                     xt = np.linspace(xt[0], xt[-1], m)
                 yt = FUNCS[int(rng.integers(0, len(FUNCS)))](xt) if rng.random() < .5 else rng.normal(size=m)
+                if rng.random() < .35:
+                    # the same table in other units (1e-14 .. 1e+12), starting at 0: the rule must scale with the interval
+                    xt = (xt - xt[0]) * 10.0 ** float(rng.integers(-14, 13))
                 hist.append(["data", m, n])
                 if rng.random() < .8:
                     probe.attempt(qg.integrate, xt, yt, npts=n)
